@@ -1,7 +1,11 @@
 from functools import wraps
 
 
-__all__ = ['memoize', 'singleton', 'memoize_attr_check']
+__all__ = ['memoize', 'singleton', 'memoize_attr_check', 'clear_cache',
+           'clear_all_caches']
+
+# All the caches created by memoize, so that they can be cleared together
+_memoize_caches = []
 
 
 def _make_key(args, kwargs):
@@ -11,6 +15,7 @@ def _make_key(args, kwargs):
 def memoize(func):
     """Save results of function calls to avoid repeated calculation"""
     memo = {}
+    _memoize_caches.append(memo)
 
     @wraps(func)
     def wrapper(*args, **kwargs):
@@ -46,6 +51,16 @@ def clear_cache(func):
         func.__memoize_cache.clear()
     except AttributeError:
         pass
+
+
+def clear_all_caches():
+    """
+    Clear the caches of all functions decorated by memoize. This should be
+    called whenever anything that memoized results depend on changes in-place
+    (e.g. the values in a dataset, the links, or a subset state).
+    """
+    for memo in _memoize_caches:
+        memo.clear()
 
 
 def memoize_attr_check(attr):
